@@ -98,3 +98,23 @@ Proof.
     + constructor; [vm_compute; reflexivity|]. constructor; [vm_compute; reflexivity|constructor].
     + repeat constructor; discriminate.
 Qed.
+
+(* ---- from the BYTES of a GFF3 file whose rows stand in any order ---- *)
+From GF Require Import FastaLayout GffLineProofs GffFileProofs.
+Theorem gff_bytes_to_regions_any_order (regs : list (list N * (nat * nat))) (rows : list grow) (hdr : list N) (chunks : list (list N)) (id : list N)
+        (gs : list group) (rs : list cregion) (lines : list (list N * bool)) :
+  let genome := degap (map upper (concat chunks)) in
+  let R := map feat_of rows in
+  Forall wf_region regs -> rows <> [] -> Forall wf_row rows ->
+  first_field hdr = Some id -> concat chunks <> [] -> Forall valid_chunk chunks -> Forall ok_line ((62 :: hdr) :: chunks) ->
+  Forall (fun r => is_cds_row r = true /\ exists i, row_id r = Some i) R -> ids_in_order [] R = map fst gs -> Forall (canonical R) gs ->
+  Forall2 (fun g x => region_from_gfeats genome (snd g) = Ok x) gs rs -> Forall (fun x => cr_name x <> []) rs ->
+  Forall (fun le => ok_line (fst le)) lines ->
+  map fst lines = version_line :: map region_line regs ++ map render_row rows ++ bs "##FASTA" :: (62 :: hdr) :: chunks ->
+  regions_of_gff_text (FastaLayout.render lines) =
+  bind (codes rs (length genome)) (fun inter => Ok (ssort cregion (fun a b => (cr_start a <? cr_start b)%Z) rs, inter)).
+Proof.
+  intros genome R Hregs Hne Hrows Hid Hc Hv Hok HR Hids Hcan Hreg Hnamed Hl El. unfold regions_of_gff_text.
+  rewrite (gff_file_bytes_read lines Hl), El, (gff_file_read regs rows _ Hregs Hne Hrows), (gff_fasta_section hdr chunks id Hid Hc Hv Hok).
+  cbn [bind gff_fasta gff_features forallb last r_seq]. apply (regions_from_gff_any_order genome R gs rs); assumption.
+Qed.
